@@ -291,7 +291,7 @@ pub fn run(ctx: &Ctx) -> i32 {
     let ex = Excl { restart: ctx.open("show.after_restart") || ctx.open_any("crash.after_manual_flush_or_clean_restart") || ctx.open_any("crash.store_after_compaction_and_restart"), compaction: ctx.open("show.after_compaction"), same_second: ctx.open("show.event_on_high_water_second"), flush_between: ctx.open("show.flush_after_remember"), where_not_returned: ctx.open("show.where_field_not_returned") };
     crate::props::c02::KNOWN_ID_REUSE.store(ctx.open_any("layout.stale_cache_after_id_reuse"), std::sync::atomic::Ordering::Relaxed);
     let wx = crate::props::c02::WhereExcl::from_ctx_any(ctx);
-    let cases = ctx.tier.pick(96, 1500);
+    let cases = ctx.tier.pick(240, 1500);
     let tier = ctx.tier;
     if let Some(f) = explore(ctx, "show-vs-query", || case_strategy(tier, ex, wx), Explore { cases, max_shrink_iters: ctx.tier.pick(100, 400), lanes: ctx.lanes }, &stats, run_case) {
         report.violations.push(f);
